@@ -13,6 +13,13 @@
 #      exactly the undefined names in placeholder position;
 #  (4) dump_conf_header: exactly the keys, once each, sorted, documented rendering per type.
 # Plus a file-level slice (do_conf_file on real files == do_conf_str on the same text, byte for byte).
+# Family "names" (cmake formats): ${...} references whose NAME is computed from inner references in both spellings
+# (${A_@B@}, ${A_${B}}, ${${B}}, ${@B@}, three deep, inner name undefined), and words in the value of a #cmakedefine; every
+# sequence of <= 2 (quick) / <= 3 (thorough) fragments of a 20-fragment alphabet x 693 data sets in which, besides A and B, at
+# most one of the names that can be composed is bound (so the composed name exists / does not exist / is not a name at all).
+# Nesting is not described in Meson's own documentation; it is the documented behaviour of the format's home (cmake-language(7):
+# "Variable references can nest and are evaluated from the inside out", configure_file(): @VAR@ and ${VAR} are both references),
+# the reference implements that rule and - where a cmake(1) is installed - is compared with it line by line.
 import io, itertools, json, os, re, shutil, signal, string, sys, time
 from verif.core import Check, pmap, run_main, scratch_root
 
@@ -904,6 +911,76 @@ def names_family(ck, maxlen):
     return tot, unspec, classes
 
 
+def cmake_calibration(ck):
+    """The 'cmake' formats are CMake's configure_file() format: where a cmake(1) is installed, the reference (not Meson) must
+       agree with it on every specified line of the names family for every all-string data set (CMake has no other types).
+       Decides nothing about Meson; it shows that the nesting rules of the reference are CMake's."""
+    exe = shutil.which('cmake')
+    if not exe:
+        ck.part('cmake_calibration', cmake_available=False)
+        return 0
+    import subprocess
+    bodies = []
+    for text, _ in N_TEMPLATES:
+        for l in split_lines(text):
+            b = split_eol(l)[0]
+            # (CMake's documentation speaks of "input lines of the form #cmakedefine VAR ..."; its implementation finds the keyword
+            # anywhere in a line.  The reference follows the documentation, so lines with the keyword further right are left out.)
+            if b and b not in bodies and '\r' not in b and ('cmakedefine' not in b or b.startswith('#cmakedefine')):
+                bodies.append(b)
+    datas = [d for d in N_DATASETS if all(isinstance(v, str) and '@' not in v and '$' not in v for v in d.values())]
+    root = os.path.join(scratch_root(), 'cmakecal')
+    shutil.rmtree(root, ignore_errors=True)
+    os.makedirs(root)
+    with open(os.path.join(root, 't.in'), 'w', encoding='utf-8', newline='') as f:
+        f.write(''.join(b + '\n' for b in bodies))
+    keys = sorted({k for d in datas for k in d} | {'U', 'x'})
+    L = []
+    for i, d in enumerate(datas):
+        L += ['unset(%s)' % k for k in keys]
+        L += ['set(%s [==[%s]==])' % (k, v) for k, v in d.items()]
+        L += ['configure_file(t.in o%d.cmake.out)' % i, 'configure_file(t.in o%d.cmake@.out @ONLY)' % i]
+    with open(os.path.join(root, 's.cmake'), 'w') as f:
+        f.write('\n'.join(L) + '\n')
+    p = subprocess.run([exe, '-Wno-dev', '-P', 's.cmake'], cwd=root, stdout=subprocess.PIPE, stderr=subprocess.STDOUT, text=True, timeout=300)
+    if p.returncode != 0:
+        ck.part('cmake_calibration', cmake_available=True, cmake_failed=p.stdout[-300:])
+        return 0
+    n = nested = skipped = 0
+    bad = []
+    for i, d in enumerate(datas):
+        for fmt in ('cmake', 'cmake@'):
+            with open(os.path.join(root, 'o%d.%s.out' % (i, fmt)), encoding='utf-8', newline='') as f:
+                got = f.read().split('\n')
+            if len(got) != len(bodies) + 1:
+                bad.append('cmake output has %d lines for %d' % (len(got), len(bodies)))
+                continue
+            for b, g in zip(bodies, got):
+                spec = analyse(b + '\n', fmt)
+                if spec[0] == 'plain':
+                    exp, _, why = render_plain(spec[1], fmt, d)
+                    exp = [exp] if exp is not None else None
+                elif spec[0] == 'define':
+                    exp, _, why = render_define(spec, fmt, d)
+                else:
+                    exp = None
+                if exp is None:
+                    skipped += 1
+                    continue
+                n += 1
+                nested += any('nested' in t for t in (spec[5] if spec[0] == 'define' else spec[3]))
+                if g not in exp:
+                    bad.append('line %r (%s) with %r: reference %r, cmake %r' % (b, fmt, d, exp, g))
+    shutil.rmtree(root, ignore_errors=True)
+    NSTAT.clear()
+    # a disagreement is about the reference and the installed cmake, not about Meson: it is recorded and shown, the verdict does not depend on it
+    ck.part('cmake_calibration', cmake_available=True, lines=len(bodies), all_string_data_sets=len(datas), lines_compared=n,
+            lines_with_composed_names_compared=nested, unspecified_skipped=skipped, disagreements=len(bad), first_disagreements=bad[:3])
+    if bad:
+        print('note: the reference disagrees with %s on %d lines, first: %s' % (exe, len(bad), bad[0]), file=sys.stderr, flush=True)
+    return n
+
+
 # ---- tier B: the same templates end-to-end through configure_file() of a real `meson setup` ------------------------------
 # The data values are written as Meson literals into a generated meson.build (configuration_data().set), every
 # template is an input file, and the file configure_file() writes must equal, byte for byte, what do_conf_str gave
@@ -1330,6 +1407,11 @@ def main():
             ck.part('known_finding_witnesses', **{key: {'template': rep['template'], 'format': rep['format'], 'data': rep['data']}})
         ck.violation(key, what, rep)
     ck.part('hang_probe', probes=4, hangs=pacc.hangs, class_skipped_in_enumeration=HANG_CLASS_LIVE)
+    if ck.args.only == 'names':          # debugging: only the names family (no evidence is written with --only)
+        ntot, nunspec, nclasses = names_family(ck, ck.q(2, 3))
+        cmake_calibration(ck)
+        print(json.dumps(ck.parts, indent=1, sort_keys=True, default=repr))
+        ck.finish(evaluations=ntot.get('evaluations', 0), distinct_nontrivial=len(nclasses), rule='names family only', exhaustive=True)
     nt = len(TEMPLATES)
     # contiguous shards, simplest first; smaller shards first so early (short) counterexamples surface in order
     step = max(50, nt // 320)
@@ -1371,6 +1453,7 @@ def main():
                'escape / CRLF classes not exercised')
     t_enum = time.time()
     ntot, nunspec, nclasses = names_family(ck, ck.q(2, 3))
+    cmake_calibration(ck)
     ck.cov['skipped_unspecified'] += sum(nunspec.values())
     classes |= nclasses
     t_names = time.time()
